@@ -12,14 +12,17 @@ HIST = [  # C12: partitions of the full flag set in dependency order (P2P anywhe
 SINGLE = [1, 2, 4, 8, 16, 32]
 
 
-def gen_exec_cases(tier, rng, want):
+def gen_exec_cases(tier, rng, want, pid="C01"):
     cases = []
     quick = tier == "quick"
     # small exhaustive occupancies (thinned), all stops
     k = 0
+    res = {"C01": 0, "C02": 1, "C08": 2, "C12": 3}.get(pid, 0)
     for tc in T.gen_exhaustive(tier):
         k += 1
         if quick and k % 23 != 0:
+            continue
+        if not quick and k % 4 != res:      # the four algorithm checks share the exhaustive occupancies: one residue class each
             continue
         for stop in (0, 1, 2):
             if quick and (k + stop) % 3 != 0:
@@ -44,7 +47,7 @@ def run_algo_property(pid, prop_file, tier, seed, want, level="proof"):
             rep.violation(dict(kind="build", clause="h_algo", has_input=True), "harness h_algo does not compile: " + err[-600:], dict(stderr=err))
             return rep.finish()
         rng = vlib.Rng(seed).fork(pid)
-        cases = gen_exec_cases(tier, rng, want)
+        cases = gen_exec_cases(tier, rng, want, pid)
         ph = os.path.join(sdir, "hc.cases"); vlib.write_cases(ph, ["hc"])
         try:
             hc = int(vlib.run_impl(binary, ph)[0])
